@@ -717,3 +717,53 @@ def replace_span(text, a, b, rep, log):
     key = "R7 outline span `%s` .. `%s`" % (a, b)
     log[key] = log.get(key, 0) + 1
     return text[:s0] + rep + text[e0:]
+
+
+def r4w_iter_take_while(text, log):
+    """`for [&]x in E.iter().take(N) { B }` -> `{ let vx_limK = (N).min(E.len()); let mut vx_tkK = 0; while vx_tkK < vx_limK {
+    let x = [&]E[vx_tkK]; vx_tkK += 1; B } }` - the while form of the take-loop, so that `continue`/`break` in B keep their meaning
+    (Verus for-loops have no `continue`).  E must be a plain place path; N is evaluated once."""
+    k = 0
+    while True:
+        st = sig(lex(text))
+        hit = None
+        for i, t in enumerate(st):
+            if not (t.kind == "ident" and t.text == "for"):
+                continue
+            j = i + 1
+            deref = False
+            if st[j].text == "&":
+                deref = True
+                j += 1
+            if st[j].kind != "ident" or st[j + 1].text != "in":
+                continue
+            x = st[j].text
+            e0 = j + 2
+            e1 = e0
+            if st[e1].kind != "ident":
+                continue
+            while st[e1 + 1].text == "." and st[e1 + 2].kind == "ident" and st[e1 + 3].text != "(":
+                e1 += 2
+            if [y.text for y in st[e1 + 1:e1 + 8]] != [".", "iter", "(", ")", ".", "take", "("]:
+                continue
+            o = e1 + 7
+            c = match_close(st, o)
+            if st[c + 1].text != "{":
+                continue
+            hit = (i, x, deref, e0, e1, o, c)
+            break
+        if hit is None:
+            return text
+        i, x, deref, e0, e1, o, c = hit
+        k += 1
+        iv = "vx_tk%d" % k
+        lim = "vx_lim%d" % k
+        e_txt = text[st[e0].start:st[e1].end]
+        n_txt = text[st[o].end:st[c].start].strip()
+        b_open = c + 1
+        b_close = match_close(st, b_open)
+        body = text[st[b_open].end:st[b_close].start]
+        new = "{ let %s = (%s).min(%s.len()); let mut %s = 0; while %s < %s { let %s = %s%s[%s]; %s += 1; %s} }" % (
+            lim, n_txt, e_txt, iv, iv, lim, x, "" if deref else "&", e_txt, iv, iv, body)
+        text = text[:st[i].start] + new + text[st[b_close].end:]
+        log["R4w iter().take() -> while"] = log.get("R4w iter().take() -> while", 0) + 1
